@@ -11,10 +11,10 @@ import (
 	"golang.org/x/tools/go/ssa"
 )
 
-var intrinsicTable map[string]intrinsicFn
+var intrinsicTable = map[string]intrinsicFn{}
 
 func init() {
-	intrinsicTable = map[string]intrinsicFn{
+	for k, v := range map[string]intrinsicFn{
 		// ---- harness API
 		zzsymPath + ".Bool":      zzBool,
 		zzsymPath + ".U8":        func(fr *frame, a []value) value { return zzInt(fr, a, 8) },
@@ -92,6 +92,15 @@ func init() {
 		"sync.runtime_registerPoolCleanup": noop,
 		"sync.runtime_notifyListCheck":     noop,
 
+		"time.runtimeNano": func(fr *frame, a []value) value { return fr.in.ctx.I64(1000000) },
+		"time.now": func(fr *frame, a []value) value {
+			in := fr.in
+			if !in.ps.initMode {
+				in.ps.events = append(in.ps.events, "clock consulted: "+in.where(fr.caller, fr.callpos))
+			}
+			return tuple{in.ctx.I64(1700000000), in.ctx.BV(32, 0), in.ctx.I64(2000000)}
+		},
+		"time.Sleep":           noop,
 		"runtime.KeepAlive":    noop,
 		"runtime.GC":           noop,
 		"runtime.Gosched":      noop,
@@ -146,6 +155,8 @@ func init() {
 		},
 		"sort.Slice":       sortSlice,
 		"sort.SliceStable": sortSlice,
+	} {
+		intrinsicTable[k] = v
 	}
 	for _, w := range []string{"32", "64"} {
 		for _, k := range []string{"Int", "Uint"} {
@@ -453,8 +464,7 @@ func (h *HashObj) callMethod(in *Interp, fr *frame, name string, args []value) v
 	case "Sum":
 		d := in.hashTerms(h.kind, h.outLen(), h.buf)
 		pre := args[0].(SliceV)
-		res := append(append([]*Term(nil), in.sliceTerms(pre)...), d...)
-		return in.mkBytes(res)
+		return in.appendVals(pre, in.mkBytes(d), nil)
 	case "Reset":
 		h.buf = nil
 		return nil
